@@ -103,6 +103,7 @@ def traceLine (v : Variant) (acts : List Act) : String :=
   else " ".intercalate acc.reverse
 
 def runLine (line : String) : String :=
+  let line := (line.splitOn "#").headD ""
   match (line.trimAscii.toString.splitOn " ").filter (· ≠ "") with
   | "sched" :: v :: toks =>
     match parseVariant v, toks.mapM parseAct with
@@ -308,27 +309,46 @@ def randomScheds (v : Variant) (n : Nat) (seed : UInt64) : Array (List Act) := I
 
 def witnessActs : List Act := witnessPrefix
 
+/-- why the repaired cleanup goroutine removes the map entry only if it is still its own: the shard
+is unloaded (closed, ls.mu released), a deletion removes entry and files, a new request loads the
+shard again, only then does the old cleanup goroutine reach its map step, and a third request
+must find the reloaded shard in the store (not open the file a second time) -/
+def staleCleanupActs : List Act :=
+  [.newReq (0,0)] ++ List.replicate 7 (.run 0) ++ [.run 1, .fire 1] ++ List.replicate 7 (.run 1) ++
+  [.newDel 0] ++ List.replicate 10 (.run 2) ++ [.newReq (0,0)] ++ List.replicate 7 (.run 3) ++ List.replicate 3 (.run 1) ++
+  [.newReq (0,0)] ++ List.replicate 4 (.run 5)
+
 def fixedScheds (v : Variant) : List (List Act) :=
-  -- the witness prefix, completed in the model of the given variant
-  let pre := match v with
-    | .pinned => witnessActs
-    | .repaired => witnessActs
-  let (s, n) := runSched v (St.init []) pre
-  let pre := pre.take n
-  [finish v pre s (dirUniverse pre)]
+  [witnessActs, staleCleanupActs].map fun pre =>
+    -- the prefix as far as it is enabled in the model of this variant, completed to a terminal state
+    let (s, n) := runSched v (St.init []) pre
+    let pre := pre.take n
+    finish v pre s (dirUniverse pre)
 
 def genMain (out : IO.FS.Stream) (v : Variant) (tier : String) (seed : Nat) : IO Unit := do
   for acts in fixedScheds v do
     out.putStrLn (schedLine v acts)
   if tier == "thorough" then
-    for (_, calls) in configs do
+    -- transition cover of the state graph of every configuration: complete for the two one-shard
+    -- configurations, every fourth schedule (offset by the seed) for the two larger ones
+    let mut ci := 0
+    for (name, calls) in configs do
       let ex := exploreConfig v calls
-      for acts in cover v (dirUniverse calls) ex do
-        out.putStrLn (schedLine v acts)
+      let sc := cover v (dirUniverse calls) ex
+      let stride := if ci == 0 || ci == 3 then 1 else 4
+      let mut n := 0
+      let mut k := 0
+      for acts in sc do
+        if k % stride == seed % stride then
+          out.putStrLn (schedLine v acts)
+          n := n + 1
+        k := k + 1
+      out.putStrLn s!"# cover {name}: states={ex.nodes.size} transitions={ex.edges} cover_schedules={sc.size} emitted={n}"
+      ci := ci + 1
     for acts in randomScheds v 300 (UInt64.ofNat seed) do
       out.putStrLn (schedLine v acts)
   else
-    for acts in randomScheds v 160 (UInt64.ofNat seed) do
+    for acts in randomScheds v 200 (UInt64.ofNat seed) do
       out.putStrLn (schedLine v acts)
 
 def statsMain (out : IO.FS.Stream) (v : Variant) : IO Unit := do
